@@ -290,7 +290,14 @@ func (vc *VC) loopHead(fr *Frame, li *loopInfo, cur *State, ins []edgeState) *St
 	// 2. havoc what the body may modify
 	st := cur.clone()
 	mods := vc.loopMods(fr, li)
+	var modAllocs []*ssa.Alloc
 	for a := range mods.allocs {
+		if _, ok := fr.cellOf[a]; ok {
+			modAllocs = append(modAllocs, a)
+		}
+	}
+	sort.Slice(modAllocs, func(i, j int) bool { return fr.cellOf[modAllocs[i]].id < fr.cellOf[modAllocs[j]].id })
+	for _, a := range modAllocs {
 		if c, ok := fr.cellOf[a]; ok {
 			if old, live := st.cells[c]; live {
 				if _, rep := flatten(old); !rep && old.K != KBad {
@@ -403,7 +410,12 @@ func (vc *VC) loopHead(fr *Frame, li *loopInfo, cur *State, ins []edgeState) *St
 			}
 		}
 	}
+	var modGhosts []string
 	for g := range mods.ghost {
+		modGhosts = append(modGhosts, g)
+	}
+	sort.Strings(modGhosts)
+	for _, g := range modGhosts {
 		if old, ok := st.ghost[g]; ok {
 			if old.K == KGhost {
 				st.ghost[g] = Val{K: KGhost, GSort: old.GSort, S: vc.sc.fresh("lg."+g, old.GSort)}
